@@ -1028,6 +1028,12 @@ class Machine:
                 v = None
             if self.drop_is_interesting(ty, v):
                 self.event(st, "drop", ty["s"], [v], None, t.get("span"))
+            dfn = self.token_drop_fn(ty)
+            if dfn is not None and v is not None and v is not UNINIT:
+                # an RAII token (field-less or scalar-only struct with a destructor): its destructor's effects belong to this path
+                lv = self.lv(st, fr, t["place"])
+                if lv.cell is not None and lv.sym is None and lv.slice is None:
+                    return self.enter(st, fr, dfn, [], [Ref(lv.cell, lv.path, True)], LV(Cell(UNIT), ()), t, t.get("span"))
             fr.block = t["target"]
             return None
         if k == "unreachable":
@@ -1047,6 +1053,23 @@ class Machine:
             st.note = k
             return None
         raise Unsupported("terminator " + k)
+
+    def token_drop_fn(self, ty):
+        """Path of `<T as Drop>::drop` when T is a crate struct with a destructor and no owning fields (unit-like or scalars
+        only): a scope token such as a write window. Types that own memory (guards, containers, verifiers) are analysed as
+        roots of their own and are not entered here."""
+        if ty.get("k") != "adt":
+            return None
+        a = self.facts.adts.get(ty.get("path"))
+        if not a or len(a["variants"]) != 1:
+            return None
+        for f in a["variants"][0]["fields"]:
+            if int_info(f["ty"], self.ptr_bits) is None or f["ty"].get("k") in ("ptr", "fnptr"):
+                return None
+        if not hasattr(self, "_drop_fns"):
+            self._drop_fns = {f["impl_of"]["self_ty"].get("path"): p for p, f in self.facts.fns.items()
+                              if f.get("impl_of") and f["impl_of"].get("trait") == "std::ops::Drop"}
+        return self._drop_fns.get(ty["path"])
 
     def drop_is_interesting(self, ty, v):
         s = ty["s"]
